@@ -23,7 +23,7 @@ structure Inv4 (s : State) : Prop where
     (s.subPc = 0 → s.starts = s.reported + s.skips + 1 →
       isDirect s.subKind = true ∨ (s.result = ESTOPPED ∧ s.final = ESTOPPED))
   freedRets : s.freed = true → s.subRets = []
-  win : s.stopPc = 5 → s.inCb = 0
+  win : s.stopPc = 5 → s.stopFree = true → s.inCb = 0
   freedFree : s.freed = true → s.stopFree = true
   pc5Free : s.stopPc = 5 → s.stopFree = true → s.freed = true
   pc5Stopped : s.stopPc = 5 → s.stoppedAt.isSome = true
@@ -150,7 +150,7 @@ theorem inv4_step_c {s s' : State} {g : G} {l : Label} (h : Inv1 s) (k : Inv3 s)
   | expCall => cases hk : s.expFn <;> inv4_labk hs hk
   | expRelease => inv4_lab hs
   | pop => inv4_lab hs
-  | cbRead => simp only [okL] at hc; inv4_lab hs
+  | cbRead => inv4_lab hs
   | cbDone => inv4_lab hs
   | peek => inv4_lab hs
   | _ => first | (cases ha; done) | (cases hb; done)
